@@ -87,15 +87,17 @@ def Acc.add (H : Bytes → Bytes) (a : Acc) (db : DB) (hash : Bytes) : Acc × DB
   if ok then ({ len := a.len + 1, roots := rs }, db', true)
   else ({ a with roots := rs }, db', false)
 
+/-- `if carry != nil { r.Add(carry) }`: the node the iteration works on; none = `node.Add` panicked -/
+def addCarry (r : Bytes) : Option Bytes → Option Bytes
+  | some c => nodeAdd r c
+  | none => some r
+
 /-- the carry loop shared by `GetMerkleHeader` (store = false) and `Finalize` (store = true).
     `none` = a `node.Add` panicked. -/
 def carryFold (H : Bytes → Bytes) (store : Bool) : List Bytes → Option Bytes → DB → Option (Option Bytes × DB)
   | [], carry, db => some (carry, db)
   | r :: rest, carry, db =>
-    let r? : Option Bytes := match carry with
-      | some c => nodeAdd r c
-      | none => some r
-    match r? with
+    match addCarry r carry with
     | none => none
     | some r' =>
       if rest.isEmpty ∧ nodeLen r' = 1 then
